@@ -27,13 +27,52 @@ BUILT = {
  "C13": ("exploration", "differential exhaustive enumeration: corpus, all truncations/mutations/splices, all short byte strings",
          "Both decoders run on every corpus encoding, every truncation, per-byte mutation and splice of the short ones and on ALL byte strings 131++s with |s|<=2 (3 in thorough); results must agree structurally (floats by bits, raw identifier bytes), modern-tag inputs accepted by the owned decoder must be accepted, error offsets must lie inside the input.",
          "Inputs whose declared element counts exceed the input are left to C02 (they are decoded there under a process supervisor).", "3/C13"),
+ "C02": ("exploration", "exhaustive enumeration of finite adversarial input families under a process supervisor with a counting allocator",
+         "Every tag x boundary values of its length/arity/count fields x tails, nine nesting paths to depth 2^16 (2^22 thorough), every truncation/mutation/splice of a corpus, compressed sections that lie about their size, fragment header prefixes - all through nine decode entry points in child processes on a 2 MiB-stack thread; outcome must be ok/err, peak requested bytes <= 512*(len+inflated)+256 KiB, over-declared inflation must be an error.",
+         "Trusted: the supervisor and counting allocator in etfmc (alloc.rs, probe.rs), flate2 for measuring inflated sizes. The linear factor 512 and the 256 KiB slack are this check's reading of 'out of proportion'.", "3/C02"),
+ "C04": ("model_checking", "explicit-state BFS over the real handshake machine + exhaustive enumeration of scripted-peer deviations against the real Connection::connect",
+         "(a) BFS over all sequences of the state machine's public methods with valid, malformed, stale, reflected and oversized arguments, every history replayed on a fresh real object; flag/cookie/name/creation sweeps; (b) the real connect over loopback against 11x10x10 scripted peer behaviours on a controller-owned clock, emitted bytes parsed by an independent reader, connection reused after close().",
+         "Trusted: independent handshake reader/writer and MD5 in vcore; fake EPMD and scripted peer in netmc; loopback TCP delivery order.", "3/C04"),
+ "C05": ("model_checking", "exhaustive enumeration of environment answers (chunk sizes, Pending, EOF) against the real framer, plus every 1- and 2-cut over a real socket",
+         "(a) every composition of every short framed stream into read sizes, Pending at every position and pair of positions, EOF at every offset, short writes and Pending on the writer, cap boundary with allocation accounting; (b) receive_raw on a real socket under every single and double cut.",
+         "Trusted: hand-rolled poll loop and scripted AsyncRead/AsyncWrite (etfmc/src/c05.rs); vcore framing reference.", "3/C05"),
+ "C06": ("model_checking", "exhaustive enumeration of peer frame sequences x segmentations against the real receive loops",
+         "Every sequence of <=2 (3) frames over a 14-21 frame alphabet (all pass-through control kinds, ticks, malformed frames, distribution-header and fragmented messages from a reference sender) x {whole, byte-by-byte, first frame split at every offset} through both receive entry points, compared with a reference receiver; a final valid message proves the stream is still in sync.",
+         "Trusted: reference sender/fragmenter/readers in vcore; settle heuristic of the controller (4 idle yields); failing cases are re-run twice and only reported if they reproduce.", "3/C06"),
+ "C07": ("model_checking", "exhaustive operation/argument enumeration read by an independent protocol reader + deviation-bounded schedule exploration of concurrent senders",
+         "Six operations x argument boundary values x both framing modes on a real Connection, peer byte log cut and read by independent readers; closed/refused/never-connected connections; 2-3 concurrent tasks through one Node with gates before the connection lock, between the partial writes of a frame and after it, all schedules within the deviation bound.",
+         "Trusted: vcore pass-through and distribution-header readers; gate hooks (cfg edp_rs_verif); individual tokio Mutex / socket operations are taken as atomic.", "3/C07"),
+ "C09": ("model_checking", "explicit-state BFS whose transitions call the real FragmentAssembler",
+         "BFS over event histories (header, continuations, one duplicate, out-of-range ids, cleanup) for every message length 1..6 x fragment count x cut and for 2-4 interleaved sequences; every history replayed on a fresh real assembler; step oracle: delivery exactly at the last missing fragment with the original bytes, pending_count = incomplete sequences.",
+         "State key = reference table of ids received before/after the header per sequence, which determines the assembler's future outputs; nothing is sent for a sequence after it has been delivered.", "3/C09"),
+ "C14": ("model_checking", "exhaustive header-shape enumeration read by an independent header reader + BFS over sender-cache histories through one real AtomCache",
+         "(a) k distinct atoms for k in {0..4,254,255,256} x atom lengths x four placements, encoded by the library, read by an independent implementation of the header layout and by the library; (b) BFS over all histories of <=3 (4) messages of a conforming sender model (new entry / reference / overwrite, 4 slots in 3 segments, header position != slot), state = sender cache contents.",
+         "Trusted: vcore header reader/writer; the as-is decoder model in c14.rs is used only to attribute the listed finding.", "3/C14"),
+ "C15": ("exploration", "exhaustive value-family enumeration through both serde paths",
+         "i8/u8/i16/u16 whole range, 32/64-bit integers at every power of two +-1, chars (all scalar values in thorough), f32 (all bit patterns in thorough), strings, and Option/Vec/tuple/HashMap/BTreeMap/struct/ElixirStruct/newtype/enum wrappers; to_term/from_term and to_bytes/from_bytes must return the original value.",
+         "Default feature set only (elixir-interop off). Values outside the listed families are not covered.", "3/C15"),
+ "C16": ("model_checking", "loom DPOR over the real allocator + exhaustive baton interleavings of make_reference + long sequential histories",
+         "loom explores every interleaving (C11 memory model) of T threads x A allocate() calls on the real pid_allocator.rs from counter positions at the wrap points; all 20/1680 interleavings of make_reference's three counter steps for 2/3 threads; 3-5 x 2^20 sequential allocations across wraps.",
+         "Trusted: loom 0.7.2; build.rs refuses to build if a std::sync import of pid_allocator.rs is not switched to loom. Preemption-bounded where stated in the evidence.", "3/C16"),
+ "C17": ("model_checking", "deviation-bounded stateless exploration of the real Node rpc path under gate hooks, scripted peer and controller-owned clock",
+         "1-3 concurrent rpc callers; decision points offer parked gates (table insert/lookup/remove steps, frame writes, route miss) and environment events (reply, duplicate reply, reply to unknown pid, timer, peer close); every execution with at most `bound` non-default choices is run to completion and judged: own reply or legitimate timeout/error, nothing left in the pending table.",
+         "Trusted: gate placement (DESIGN 2.5), settle heuristic, DashMap/oneshot operations atomic; a blocked runtime thread is detected by a 20 s watchdog and reported as a hung schedule.", "3/C17"),
+ "C18": ("model_checking", "exhaustive operation histories on a real Node against a reference model + deviation-bounded exploration of two-driver scenarios",
+         "Every history of <=3 (4) operations over an 18-operation alphabet compared step by step with a reference node model (delivery order, exit/monitor notices, name lifecycle); six concurrent scenarios under gates in spawn/registry/exit propagation.",
+         "Trusted: reference model in c18.rs; notices to different recipients are unordered among each other.", "3/C18"),
+ "C19": ("model_checking", "exhaustive enumeration of inbound event sequences against a real started Node",
+         "Every sequence of <=3 (4) events over a 21-event alphabet (routable and unroutable messages, exits, rpc reply, junk, framing breaks, silence) followed by a final probe; deliveries, connection table and the outstanding rpc compared with the ideal model; the listed idle-timeout finding is attributed through an as-is model.",
+         "Trusted: reference models in c19.rs; virtual time only moves by explicit advance().", "3/C19"),
+ "C20": ("exploration", "exhaustive grids over wrapper field values against i128 / calendar references",
+         "Range boundary cube and small exhaustive ranges for len/contains/iteration/size_hint; every (month,day) byte pair x 14 years; 9^3x6x9 time grid; out-of-type-range fields; map sets, exceptions, builders, all proplists of length <=3 and maps of <=2 entries; term and wire round trips.",
+         "Round-trip domain = values the wrapper's own try_new accepts (all i64 for ranges).", "3/C20"),
 }
 PENDING_REASON = "check not built yet (construction in progress, see DESIGN.md section 7)"
 
 def hooks_commits():
     try:
         out = subprocess.run(["git", "-C", "/repo", "log", "--format=%H %s"], capture_output=True, text=True).stdout
-        return [l.split()[0] for l in out.splitlines() if " verif-hook" in l or "verif hook" in l]
+        return [l.split()[0] for l in out.splitlines() if " verif-hook:" in l]
     except Exception:
         return []
 
